@@ -79,10 +79,13 @@ def Cache.replay (c : Cache) (k : Kind) : Option Ctx → Cache
       else if cr = x.round ∧ c.index = x.index then { c with mark := setMark c.mark k ((c.mark k + 1) % 256) }
       else { round := some x.round, index := x.index, mark := setMark noMarks k 1 }
 
-/-- `NewVoteDB`: prevote, precommit, next-index 1, next-index 2, certificate, in that order. -/
-def restore (p : Persist) : Cache :=
-  (((((({} : Cache).replay .prevote (p .prevote 1)).replay .precommit (p .precommit 1)).replay .next (p .next 1)).replay
-    .next (p .next 2)).replay .cert (p .cert 1))
+/-- the five records `NewVoteDB` reads back, in the order it reads them:
+    prevote, precommit, next-index 1, next-index 2, certificate -/
+def slots (p : Persist) : List (Kind × Option Ctx) :=
+  [(.prevote, p .prevote 1), (.precommit, p .precommit 1), (.next, p .next 1), (.next, p .next 2), (.cert, p .cert 1)]
+
+/-- `NewVoteDB` -/
+def restore (p : Persist) : Cache := (slots p).foldl (fun c e => c.replay e.1 e.2) {}
 
 /-- `VoteDB.UpdateContext` -/
 def Cache.updateContext (c : Cache) (r i : Nat) : Cache :=
@@ -344,17 +347,17 @@ def voteCore (s : St) (k : Kind) (h prio : Nat) : St × Option (Nat × Seat) :=
       if k = .next ∧ s.v.nextVoted.isSome ∧ s.g.c.alreadyVoted .next r i then (s, none)   -- "already voted."
       else if k = .cert ∧ s.env.certErr then (s, none)                          -- signVote fails
       else
-        let (g, ok) := s.g.cast k r i h
-        if !ok then ({ s with g := g }, none)
+        let res := s.g.cast k r i h
+        if !res.2 then ({ s with g := res.1 }, none)
         else
           -- v.votesMgr.newVote(own address 0)
-          let (ws, cnt) :=
+          let wc : Wrappers × Nat :=
             match s.v.wrappers.get? r i with
-            | some w => let (w', _, cnt) := w.newVote r i k 0 h seat.w seat.vt; (s.v.wrappers.set r i w', cnt)
+            | some w => let nv := w.newVote r i k 0 h seat.w seat.vt; (s.v.wrappers.set r i nv.1, nv.2.2)
             | none => (s.v.wrappers, 0)
-          let s1 : St := { s with g := g, v := { s.v with wrappers := ws } }
+          let s1 : St := { s with g := res.1, v := { s.v with wrappers := wc.1 } }
           -- the post was recorded in the ghost list inside `cast`; mirror it on the call's output
-          (s1.post (.send k r i h prio seat.w), some (cnt, seat))
+          (s1.post (.send k r i h prio seat.w), some (wc.2, seat))
 
 /-- common prefix of `judgeVoteCount`; `true` = go on to the switch -/
 def judgePre (s : St) (k : Kind) (count q h vt : Nat) : St × Bool :=
@@ -370,17 +373,19 @@ def overStatus (s : St) (h : Nat) (k : Kind) : Bool := statusHas ((assocGet s.v.
 
 /-- `judgeVoteCount(NextIndex, …)` -/
 def judgeNext (s : St) (count q h prio vt : Nat) : St :=
-  let (s, go) := judgePre s .next count q h vt
-  if !go then s
+  let pre := judgePre s .next count q h vt
+  let s := pre.1
+  if !pre.2 then s
   else if s.v.sentChange then s
   else
     let s := s.post (.rice (s.v.round.getD 0) s.v.index h prio)
     { s with v := { s.v with sentChange := true } }
 
 def voteNext (s : St) (h prio : Nat) : St × Bool :=
-  match voteCore s .next h prio with
-  | (s, none) => (s, false)
-  | (s, some (cnt, seat)) => (judgeNext s cnt seat.q h prio seat.vt, true)
+  let res := voteCore s .next h prio
+  match res.2 with
+  | none => (res.1, false)
+  | some cs => (judgeNext res.1 cs.1 cs.2.q h prio cs.2.vt, true)
 
 /-- `setMarkedBlock` -/
 def setMarkedBlock (s : St) (h prio : Nat) : St :=
@@ -392,8 +397,8 @@ def setMarkedBlock (s : St) (h prio : Nat) : St :=
   else if s.v.step < 4 then
     if s.v.nextMarked.isNone ∧ h ≠ 0 then { s with v := { s.v with nextMarked := some ⟨h, prio⟩ } } else s
   else
-    let (s, ok) := voteNext s h prio
-    if !ok then { s with v := { s.v with nextVoted := some ⟨h, prio⟩ } } else s
+    let res := voteNext s h prio
+    if !res.2 then { res.1 with v := { res.1.v with nextVoted := some ⟨h, prio⟩ } } else res.1
 
 /-- `commit` -/
 def commit (s : St) (h : Nat) : St :=
@@ -407,46 +412,52 @@ def commit (s : St) (h : Nat) : St :=
 
 /-- `judgeVoteCount(Certificate, …)` -/
 def judgeCert (s : St) (count q h prio vt : Nat) : St :=
-  let (s, go) := judgePre s .cert count q h vt
-  if !go then s
+  let pre := judgePre s .cert count q h vt
+  let s := pre.1
+  if !pre.2 then s
   else if overStatus s h .precommit then setMarkedBlock (commit s h) h prio
   else s
 
 def voteCert (s : St) (h prio : Nat) : St × Bool :=
-  match voteCore s .cert h prio with
-  | (s, none) => (s, false)
-  | (s, some (cnt, seat)) => (judgeCert s cnt seat.q h prio seat.vt, true)
+  let res := voteCore s .cert h prio
+  match res.2 with
+  | none => (res.1, false)
+  | some cs => (judgeCert res.1 cs.1 cs.2.q h prio cs.2.vt, true)
 
 /-- `judgeVoteCount(Precommit, …)` -/
 def judgePrecommit (s : St) (count q h prio vt : Nat) : St :=
-  let (s, go) := judgePre s .precommit count q h vt
-  if !go then s
+  let pre := judgePre s .precommit count q h vt
+  let s := pre.1
+  if !pre.2 then s
   else if !s.v.shouldCert then setMarkedBlock (commit s h) h prio
   else if !s.v.certificated then
-    let (s, ok) := voteCert s h prio
-    if ok then { s with v := { s.v with certificated := true } } else s
+    let res := voteCert s h prio
+    if res.2 then { res.1 with v := { res.1.v with certificated := true } } else res.1
   else if overStatus s h .cert then setMarkedBlock (commit s h) h prio
   else s
 
 def votePrecommit (s : St) (h prio : Nat) : St × Bool :=
-  match voteCore s .precommit h prio with
-  | (s, none) => (s, false)
-  | (s, some (cnt, seat)) => (judgePrecommit s cnt seat.q h prio seat.vt, true)
+  let res := voteCore s .precommit h prio
+  match res.2 with
+  | none => (res.1, false)
+  | some cs => (judgePrecommit res.1 cs.1 cs.2.q h prio cs.2.vt, true)
 
 /-- `judgeVoteCount(Prevote, …)` -/
 def judgePrevote (s : St) (count q h prio vt : Nat) : St :=
-  let (s, go) := judgePre s .prevote count q h vt
-  if !go then s
+  let pre := judgePre s .prevote count q h vt
+  let s := pre.1
+  if !pre.2 then s
   else if !s.v.precommitted then
-    let (s, ok) := votePrecommit s h prio
-    let s := if ok then { s with v := { s.v with precommitted := true } } else s
+    let res := votePrecommit s h prio
+    let s := if res.2 then { res.1 with v := { res.1.v with precommitted := true } } else res.1
     setMarkedBlock s h prio
   else s
 
 def votePrevote (s : St) (h prio : Nat) : St :=
-  match voteCore s .prevote h prio with
-  | (s, none) => s
-  | (s, some (cnt, seat)) => judgePrevote s cnt seat.q h prio seat.vt
+  let res := voteCore s .prevote h prio
+  match res.2 with
+  | none => res.1
+  | some cs => judgePrevote res.1 cs.1 cs.2.q h prio cs.2.vt
 
 /-- `judgeVoteCount` for a received vote -/
 def judge (s : St) (k : Kind) (count q h prio vt : Nat) : St :=
@@ -514,39 +525,46 @@ structure VoteMsg where
 inductive Ret | nil | invalid | panic
   deriving DecidableEq, Repr
 
+/-- the checks of `Voter.processVoteMsg` that return before any state is touched (`none` = go on) -/
+def precheck (s : St) (m : VoteMsg) : Option Ret :=
+  if m.status = 2 ∧ m.nilVote then some .invalid
+  else if m.status = 2 ∧ s.v.round.isNone then some .panic    -- msg.Round.Cmp(nil)
+  else if m.status = 2 ∧ (s.v.round ≠ some m.round ∨ s.v.index ≠ m.index) then some .nil
+  else if m.kind = 5 ∧ s.env.certErr then some .invalid
+  else if m.nilVote then some .panic                         -- nil dereference in getAddrFromVote
+  else if !m.addrOk then some .invalid
+  else if m.stakeErr then some .invalid
+  else if m.sortErr then some .invalid
+  else if m.status = 3 ∨ m.status = 4 then some .nil
+  else if (m.status = 0 ∨ m.status = 1) ∧ ((s.v.wrappers.get? m.round m.index).isNone ∨ m.kind ≠ 3) then some .nil
+  else none
+
+/-- the counting part of `processVoteMsg`, once the wrapper and the vote kind are known -/
+def countVote (s : St) (m : VoteMsg) (w : Wrapper) (k : Kind) : St :=
+  let ai := w.addrVoteInfo m.round m.index k m.sender m.hash m.vt
+  let s := { s with v := { s.v with wrappers := s.v.wrappers.set m.round m.index ai.1 } }
+  if ai.2 ≠ .notVoted then s
+  else
+    let nv := ai.1.newVote m.round m.index k m.sender m.hash m.w m.vt
+    let s := { s with v := { s.v with wrappers := s.v.wrappers.set m.round m.index nv.1 } }
+    if !nv.2.1 then s
+    else if m.status = 2 then judge s k nv.2.2 m.q m.hash m.prio m.vt
+    else if nv.2.2 ≥ m.qOld then s.post (.update m.round m.index m.hash (nv.1.nChamber .precommit m.hash))
+    else s
+
 /-- `Voter.processVoteMsg` -/
 def processVoteMsg (s : St) (m : VoteMsg) : St × Ret :=
-  if m.status = 2 ∧ m.nilVote then (s, .invalid)
-  else if m.status = 2 ∧ s.v.round.isNone then (s, .panic)    -- msg.Round.Cmp(nil)
-  else if m.status = 2 ∧ (s.v.round ≠ some m.round ∨ s.v.index ≠ m.index) then (s, .nil)
-  else if m.kind = 5 ∧ s.env.certErr then (s, .invalid)
-  else if m.nilVote then (s, .panic)                         -- nil dereference in getAddrFromVote
-  else if !m.addrOk then (s, .invalid)
-  else if m.stakeErr then (s, .invalid)
-  else if m.sortErr then (s, .invalid)
-  else if m.status = 3 ∨ m.status = 4 then (s, .nil)
-  else
-    let w? := s.v.wrappers.get? m.round m.index
-    if (m.status = 0 ∨ m.status = 1) ∧ (w?.isNone ∨ m.kind ≠ 3) then (s, .nil)
-    else
-      let s := if w?.isNone ∧ m.status = 2 then { s with v := { s.v with wrappers := s.v.wrappers.new m.round m.index } } else s
-      match s.v.wrappers.get? m.round m.index with
-      | none => (s, .panic)                                   -- nil wrapper (unknown status value)
-      | some w =>
-        match Kind.ofCode? m.kind with
-        | none => (s, .nil)                                   -- addrNone
-        | some k =>
-          let (w1, res) := w.addrVoteInfo m.round m.index k m.sender m.hash m.vt
-          let s := { s with v := { s.v with wrappers := s.v.wrappers.set m.round m.index w1 } }
-          if res ≠ .notVoted then (s, .nil)
-          else
-            let (w2, add, total) := w1.newVote m.round m.index k m.sender m.hash m.w m.vt
-            let s := { s with v := { s.v with wrappers := s.v.wrappers.set m.round m.index w2 } }
-            if !add then (s, .nil)
-            else if m.status = 2 then (judge s k total m.q m.hash m.prio m.vt, .nil)
-            else if total ≥ m.qOld then
-              (s.post (.update m.round m.index m.hash (w2.nChamber .precommit m.hash)), .nil)
-            else (s, .nil)
+  match precheck s m with
+  | some r => (s, r)
+  | none =>
+    let s := if (s.v.wrappers.get? m.round m.index).isNone ∧ m.status = 2
+      then { s with v := { s.v with wrappers := s.v.wrappers.new m.round m.index } } else s
+    match s.v.wrappers.get? m.round m.index with
+    | none => (s, .panic)                                   -- nil wrapper (unknown status value)
+    | some w =>
+      match Kind.ofCode? m.kind with
+      | none => (s, .nil)                                   -- addrNone
+      | some k => (countVote s m w k, .nil)
 
 /-! ## Histories -/
 
@@ -572,15 +590,14 @@ inductive Outcome | done (r : Ret) | crashed
 
 def step (s : St) : Ev → St × Outcome
   | .ctx r i st cert =>
-    let s := updateContext { s with out := [], g := { s.g with puts := 0 } } r i st cert
-    match finish s with
-    | (s, true) => (s, .crashed)
-    | (s, false) => (s, .done .nil)
+    let res := finish (updateContext { s with out := [], g := { s.g with puts := 0 } } r i st cert)
+    (res.1, if res.2 then .crashed else .done .nil)
   | .vote m =>
-    let (s, ret) := processVoteMsg { s with out := [], g := { s.g with puts := 0 } } m
-    match finish s with
-    | (s, true) => (s, .crashed)
-    | (s, false) => if ret = .panic then (restart s, .done .panic) else (s, .done ret)
+    let pr := processVoteMsg { s with out := [], g := { s.g with puts := 0 } } m
+    let res := finish pr.1
+    if res.2 then (res.1, .crashed)
+    else if pr.2 = .panic then (restart res.1, .done .panic)
+    else (res.1, .done pr.2)
   | .crash => (restart { s with out := [] }, .done .nil)
   | .arm n after => ({ s with out := [], g := { s.g with armed := some (n, after) } }, .done .nil)
   | .env e => ({ s with out := [], env := e }, .done .nil)
